@@ -96,6 +96,27 @@ class Sym:
                 return self.ev(a, st).scale(cb)
             if ca is not None:
                 return self.ev(b, st).scale(ca)
+        if k == 'BinaryOperator' and e['op'] == '&':
+            # (y + c - 1) & ~(c - 1)  /  y & ~(c - 1) with c a power of two: round up / down to a multiple of c
+            cv = F.const_value(F.strip(e['c'][1]))
+            x = F.strip(e['c'][0])
+            if cv is None:
+                cv = F.const_value(F.strip(e['c'][0]))
+                x = F.strip(e['c'][1])
+            if cv is not None:
+                m = (~cv) & 0xFFFFFFFFFFFFFFFF
+                c_ = m + 1
+                if m > 0 and c_ & (c_ - 1) == 0 and c_ < (1 << 32):
+                    c = Lin(const=c_)
+                    if x['k'] == 'BinaryOperator' and x['op'] == '+' and F.const_value(F.strip(x['c'][1])) == m:
+                        y = self.ev(x['c'][0], st)
+                        atom = 'ru(%r,%r)' % (y, c)
+                        self.bounds[atom] = (y, y.add(c).add(Lin(const=-1)))
+                        return Lin({atom: 1})
+                    y = self.ev(x, st)
+                    atom = 'rd(%r,%r)' % (y, c)
+                    self.bounds[atom] = (y.add(c, -1).add(Lin(const=1)), y)
+                    return Lin({atom: 1})
         if k == 'MemberExpr' or k == 'ArraySubscriptExpr':
             return Lin({F.src(e): 1})
         return self.fresh('u')
